@@ -237,6 +237,67 @@ def rule_errors_as_values(ck, facts, cg):
                     ck.bad(R, key, "%s hands the MIR generator an inference context produced by %s without inspecting that context's errors on the path: an ill-typed program reaches the 'typing guarantees it' aborts of mirgen" % (f.short, cn.split("::", 1)[-1]), f.where(s))
 
 
+def rule_occurs(ck, facts):
+    """the occurs check of unification must look at every component type: a variable bound to a type that contains
+    itself makes every later traversal of that type recurse without end (stack overflow instead of CircularType)"""
+    from ..rules import cover
+    R = "C04.occurs"
+    ck.rule(R, "occur_check visits every component of a composite type: each Type variant whose payload holds type references has its own arm, and no path of such an arm answers `false` before every type-valued payload field was handed to a (recursive) check")
+    lang = facts.crate(roles.LANG)
+    fs = [f for f in lang.fns if f.short.endswith("typing::unification::occur_check") and f.kind == "fn"]
+    ck.require(R, len(fs) == 1, "anchor|occur_check", "typing::unification::occur_check not found")
+    if len(fs) != 1:
+        return
+    f = fs[0]
+    cov = cover.coverage(facts, f, roles.TYPE)
+    ck.require(R, cov is not None, "anchor|match", "occur_check no longer matches on Type")
+    if cov is None:
+        return
+    adt = facts.adt(roles.TYPE)
+    typed = {}
+    for v in adt["variants"]:
+        idx = [i for i, fld in enumerate(v["f"]) if "TypeNodeId" in fld[1] or "RecordTypeField" in fld[1]]
+        if idx:
+            typed[v["n"]] = idx
+    ck.floor(R, "type_variants_with_type_payload", len(typed), 8)
+    handled = cov.primary_handled()
+    for v, idx in sorted(typed.items()):
+        key = "arm|%s" % v
+        if v not in handled or cov.arm_target(v) is None:
+            ck.bad(R, key, "occur_check has no arm for Type::%s (it falls into the catch-all that answers `no occurrence`), although its payload holds type references: a type variable can be bound to a %s type that contains itself, and the traversals that follow never end (stack overflow in the type checker instead of a CircularType diagnostic)" % (v, v), f.where())
+            continue
+        tb = cov.arm_target(v)
+        sx = SymEx(f, payload_place=cov.primary.place, max_paths=64, facts=facts)
+        try:
+            paths = sx.run(tb)
+        except PathLimit:
+            ck.bad(R, "unanalysable|%s" % v, "arm for Type::%s too large to enumerate" % v, f.where())
+            continue
+        early = None
+        for p in paths:
+            if p.end != "return":
+                continue
+            r = p.env.get(0)
+            if not (isinstance(r, tuple) and r and r[0] == "k" and not r[1]):
+                continue  # only constant-false answers
+            txt = repr([e[2] for e in p.events if e[0] == "call"])
+            missing = [i for i in idx if "('pay', '%s', %d)" % (v, i) not in txt]
+            if missing:
+                early = missing
+        if early is None:
+            ck.ok(R, key, {"variant": v, "type_fields": idx})
+        else:
+            names = [adt_field(adt, v, i) for i in early]
+            ck.bad(R, key, "occur_check answers `no occurrence` for a Type::%s on a path that never looked at its component %s (components combined with `&&` instead of `||`): a variable can be bound to a %s type that contains it in that component, and later traversals never end" % (v, names, v), f.where())
+
+
+def adt_field(adt, v, i):
+    for var in adt["variants"]:
+        if var["n"] == v:
+            return var["f"][i][0]
+    return str(i)
+
+
 def run(ck, facts, tier):
     pm = ParserModel(facts)
     ck.floor("C04.anchor", "cst_parser_bodies", len(pm.fns), 120)
@@ -249,6 +310,10 @@ def run(ck, facts, tier):
     ck.note("front-end entry points: " + ", ".join(r.split("::", 1)[1] for r in roots))
     belief.run(ck, R, facts, cg, roots, "front-end")
     rule_errors_as_values(ck, facts, cg)
+    rule_occurs(ck, facts)
+    from . import c03
+
+    c03.rule_admission(ck, facts)
     # diagnostics carry token spans: tokens must tile the text on character boundaries (shared rule of C13)
     from . import c13
 
